@@ -62,6 +62,10 @@ func (m *DomainMatcher) Add(labels [][]byte) {
 			continue
 		}
 		hasLabel = true
+		if child, ok := currentNode.GetChild(label); ok && child == nil {
+			// An existing leaf already matches this domain and all its sub domains.
+			return
+		}
 		if i == 0 { // is leaf
 			currentNode.AddLeaf(label)
 		} else {
